@@ -729,7 +729,11 @@ func coveringSites(fr *Frame, evs []hev) map[ssa.Instruction]bool {
 	}
 	for c, sub := range children {
 		in := coveringSites(c, sub)
-		if len(in) > 0 && mustPass(c.Fn, func(i ssa.Instruction) bool { return in[i] }) {
+		pred := func(i ssa.Instruction) bool { return in[i] }
+		if len(in) > 0 && (mustPass(c.Fn, pred) ||
+			// (the callee branches on a plan worked out up the chain: judged once per
+			// combination of values the plan can have on this chain)
+			(len(sub) > 0 && sub[0].w != nil && (sub[0].w.mustPassPerKind(c, pred) || sub[0].w.mustPassPerAlternatives(c, pred)))) {
 			out[entrySite(c)] = true
 		}
 	}
